@@ -261,6 +261,16 @@ class StreamResult:
         self.stats = {}
         self.error = None
         self.wall = 0.0
+        self.order = []
+
+    def context(self, case, n=40):
+        """the case lines run (in the same process) before `case`, then `case`: failures that depend on
+        earlier operations replay with their history"""
+        try:
+            i = self.order.index(case)
+        except ValueError:
+            return [case]
+        return self.order[max(0, i - n):i + 1]
 
 
 def run_stream(name, tier, seed, replay_file=None, model=True, timeout=3000, extra_env=None):
@@ -305,6 +315,7 @@ def run_stream(name, tier, seed, replay_file=None, model=True, timeout=3000, ext
             continue
         recs.append(parts)
     res.cases = len(recs)
+    res.order = [r[0] for r in recs]
     # model side
     model_out = {}
     mlines = [r[0] for r in recs if not r[0].startswith("@")]
